@@ -53,6 +53,10 @@ Definition dispatch (req : sx) : sx :=
   else if op =? "syminfo_ok" then sx_bool (syminfo_ok (gI a1) (map g_irow (gL a2)))
   else if op =? "spec_syminfo" then         (* strtab rows irows *)
     sx_views (syminfo_views (names_of (gB a1) (g_rows a2)) (map g_irow (gL a3)))
+  else if op =? "enum_tables" then
+    let tab (n : string) (t : list (Z * string)) := SL [SS n; sx_list (fun kv => SL [SI (fst kv); SS (snd kv)]) t] in
+    SL [tab "bind" spec_st_bind; tab "type" spec_st_type; tab "local" spec_st_local;
+        tab "visibility" spec_st_visibility; tab "shndx" spec_st_shndx; tab "boundto" spec_si_boundto]
   else if op =? "hashes" then sx_list (fun n => SL [SI (sysv_hash n); SI (gnu_hash n)]) (g_names a1)
   else if op =? "enc_sysv" then SB (encode_sysv_hash (gbool a1) (g_sysv a2))
   else if op =? "wf_sysv" then              (* table strtab rows *)
